@@ -24,7 +24,7 @@ the (already rounded) public primitives by <= 5e-11 relative; a positive combina
 
 Relations on library outputs alone use 1e-13 (a few ulp: the variants may add the same positive terms in another order).
 """
-import re
+import re, threading
 import numpy as np
 from concurrent.futures import ThreadPoolExecutor
 from .. import common, refdata, execlib
@@ -112,6 +112,7 @@ class Model:
 def fetch(L, name, Z, vals):
     ZZ, VV = np.meshgrid(Z, np.asarray(vals), indexing='ij')
     r = L.call(name, ZZ.ravel(), VV.ravel())
+    COUNT[L.config] = COUNT.get(L.config, 0) + ZZ.size
     v = np.where(r.ok, r.v, 0.0).reshape(ZZ.shape)
     return v, r.ok.reshape(ZZ.shape)
 
@@ -209,25 +210,40 @@ def relerr(v, ref):
         return np.where(ref != 0, np.abs(v - ref) / np.abs(ref), np.inf)
 
 
+COUNT, COUNT_LOCK = {}, threading.Lock()
+
+
+class Msgs:
+    """error messages of a (possibly chunked) batch"""
+
+    def __init__(self, parts, chunk):
+        self.parts, self.chunk = parts, chunk            # parts: [(message index array, message table)]
+
+    def msg(self, k):
+        idx, tab = self.parts[int(k) // self.chunk]
+        m = int(idx[int(k) % self.chunk])
+        return tab[m] if 0 <= m < len(tab) else None
+
+
 def pcall(L, jobs, chunk=400000):
-    """run [(name, args...)] in a few executor processes in parallel; returns list of (ok, v, Res-for-messages)"""
+    """run [(name, args...)] in a few executor processes in parallel; returns list of (ok, v, messages)"""
     def one(j):
         n = max(np.size(a) for a in j[1:])
-        if n <= chunk:
-            r = L.call(*j)
-            return r.ok, r.v.copy(), r
         args = [np.broadcast_to(np.asarray(a), (n,)) for a in j[1:]]
-        oks, vs, r = [], [], None
+        oks, vs, parts = [], [], []
         for o in range(0, n, chunk):
             r = L.call(j[0], *[a[o:o + chunk] for a in args])
-            oks.append(r.ok); vs.append(r.v.copy())
-        return np.concatenate(oks), np.concatenate(vs), None
+            oks.append(r.ok); vs.append(r.v.copy()); parts.append((r.msgidx.copy(), r.msgs))
+        with COUNT_LOCK:
+            COUNT[L.config] = COUNT.get(L.config, 0) + n
+        return np.concatenate(oks), np.concatenate(vs), Msgs(parts, chunk)
     with ThreadPoolExecutor(max_workers=min(8, common.NCPU)) as ex:
         return list(ex.map(one, jobs))
 
 
 def main(tier):
     ck = common.Check('C08', tier)
+    COUNT.clear()
     mac = refdata.Macros()
     md = Model(mac)
     avog = float(mac.all['AVOGNUM'])
@@ -247,6 +263,7 @@ def main(tier):
     zi = gZ - 1
     ZZ, SS = np.meshgrid(np.arange(N), np.arange(NS), indexing='ij')
     r = L.call('CS_Photo_Partial', gZ[ZZ.ravel()], np.array(md.shell_val)[SS.ravel()], gE[ZZ.ravel()])
+    COUNT['kissel'] = COUNT.get('kissel', 0) + ZZ.size
     photo_ok = r.ok.reshape(N, NS)
     photo = np.where(r.ok, r.v, 0.0).reshape(N, NS)
 
@@ -394,7 +411,6 @@ def main(tier):
             sc = (aw / avog)[:, None] if unit == 'CSb' else 1.0
             compare(ck, st, md, 'FluorLine', fname, var, rv, ok, v, ref * sc, alt * sc, gZ, gE, lax, lshell_lab[None, :].repeat(N, 0), regime, label, rs, photo_ok[:, 0])
     relations(ck, st, 'FluorLine', lout, variants, gZ, gE, lax, lshell_lab[None, :].repeat(N, 0), below_l, aw, avog, lshell)
-    calls_kissel = L.calls
 
     # ------------------------------------------------------------------ shipped configuration: everything fails
     Ls = execlib.Lib('shipped', 'plain')
@@ -413,12 +429,12 @@ def main(tier):
         for k in bad[:3]:
             ck.violation('c08:%s:shipped-config-does-not-fail' % fname, '%s returned %r (%s) although the Kissel table of this configuration is empty' % (fname, float(v[k]), 'no error' if ok[k] else 'with an error'),
                          dict(call='%s(%s)' % (fname, ','.join('%.17g' % float(np.asarray(a)[k]) for a in j[1:])), config='shipped'))
-    st['per_function']['shipped:all'] = dict(calls=int(Ls.calls), failed_cleanly=shipped_fail)
+    st['per_function']['shipped:all'] = dict(calls=int(COUNT['shipped']), failed_cleanly=shipped_fail)
 
     if st['compared'] < 1000:
         raise common.Inconclusive('too few successful comparisons: %d' % st['compared'])
     expected_terms = len(cK) + len(cR) + len(cA)
-    cov = dict(evaluations=int(calls_kissel + Ls.calls), distinct_nontrivial=len(st['cells']),
+    cov = dict(evaluations=int(sum(COUNT.values())), evaluations_by_config=dict(COUNT), distinct_nontrivial=len(st['cells']),
                rule='distinct (variant, Z, shell, energy bucket = number of K..M5 shells that CS_Photo_Partial can ionise at E) cells in which a '
                     'CS_FluorShell_Kissel* value was compared successfully (1e-10) with the cascade recursion evaluated over the public primitives',
                samples=st['samples'][:12], exhaustive=False, grid_points=int(N), energies_per_element=round(N / len(Z), 2),
